@@ -22,6 +22,7 @@ import (
 	"runtime/debug"
 	"strings"
 	"testing"
+	"time"
 
 	"github.com/New-JAMneration/JAM-Protocol/internal/types"
 	"github.com/New-JAMneration/JAM-Protocol/internal/verifref/typegen"
@@ -89,6 +90,11 @@ func c14BombCount(zone string, val uint64, m *typegen.Mark) uint64 {
 	if es == 0 {
 		es = 1
 	}
+	if m.IsMap && (zone == "design" || zone == "fatal") && val%16 != 0 {
+		// make(map, hint) with a hint of billions builds millions of small tables until the
+		// ulimit is hit: tens of seconds per case. Kept, but rare.
+		zone = "measurable"
+	}
 	switch zone {
 	case "panic": // n*size > 2^48 (maxAlloc) or n > maxInt: runtime.makeslice panics (recoverable)
 		return []uint64{1 << 49, 1 << 56, 1 << 63, ^uint64(0), 1<<63 - 1}[val%5]
@@ -137,7 +143,7 @@ func c14Known(cdc *cdcCodec, s []byte, seg types.HashSegmentMap, obs, msg string
 	name := cdcShort(cdc.Name)
 	_, rej := cdcRefDecode(cdc, s, seg, "")
 	isMake := (obs == "panic" && (strings.Contains(msg, "makeslice") || strings.Contains(msg, "makechan") || strings.Contains(msg, "makemap"))) ||
-		obs == "alloc" || (obs == "death" && strings.Contains(msg, "out of memory"))
+		obs == "alloc" || (obs == "death" && (strings.Contains(msg, "out of memory") || strings.Contains(msg, "no answer within")))
 	switch {
 	case name == "AuthorizerHash" && obs == "death" && strings.Contains(msg, "stack overflow"):
 		return "KF-C14-6", "AuthorizerHash.Decode recurses without bound on every input (KF-C11-4)"
@@ -152,7 +158,8 @@ func c14Known(cdc *cdcCodec, s []byte, seg types.HashSegmentMap, obs, msg string
 		return "KF-C14-2", "Message.ReadFrom allocates encodedMessageLength-1 bytes before reading them (length 0 wraps to 2^32-1); reference: " + rej.String()
 	case strings.HasPrefix(cdc.Name, "fuzz.") && isMake && rej != nil && rej.Reason == typegen.RCountTooBig && strings.HasSuffix(rej.Path, ".AppName"):
 		return "KF-C14-3", "PeerInfo.UnmarshalBinary allocates the announced name length before reading; reference: " + rej.String()
-	case isMake && rej != nil && rej.Reason == typegen.RCountTooBig:
+	case isMake && rej != nil && rej.Reason == typegen.RCountTooBig && name != "Ancestry" && !strings.HasSuffix(rej.Path, ".Ancestry"):
+		// (Ancestry.Decode is the one sequence decoder that checks its count before make)
 		return "KF-C14-1", "length prefix larger than the remaining input reaches make(): " + rej.String()
 	}
 	if isMake {
@@ -341,6 +348,7 @@ func TestVerif_C14(t *testing.T) {
 	}
 	c14Worker = cdcNewWorker("TestVerif_C14")
 	c14Worker.Single = s.Replaying()
+	c14Worker.Timeout = 40 * time.Second
 	defer c14Worker.stop()
 	kit.Run(s, "length_bombs", kit.N{Quick: 14000, Thorough: 300000}, c14GenBomb, c14BombCheck)
 	kit.Run(s, "hostile_frames", kit.N{Quick: 3000, Thorough: 60000}, c14GenFrame, c14RawCheck)
